@@ -9,6 +9,7 @@ import random
 
 logging.disable(logging.CRITICAL)
 
+import symbols as symbols_mod
 from symbols import (Boom, coq_sym, coq_val, deep_sum, fn1, fn2, fnN, keyfn, pred,
                      val_from_json, val_to_json, z, zlist)
 
@@ -146,6 +147,7 @@ def run_case(case):
         counters[i] = RefCounter(initial=0, cb=(lambda i=i: fired.append(i)), loop=loop)
     obs = []
     mdobjs = {}
+    del symbols_mod.BOOMS[:]
     for ev in case["events"]:
         ctx["log"].clear()
         ctx["depth"] = 0
@@ -167,7 +169,7 @@ def run_case(case):
         except Exception as e:   # noqa
             raised = True
             exc = type(e).__name__
-        obs.append({"calls": list(ctx["log"]), "raised": raised, "exc": exc,
+        obs.append({"calls": list(ctx["log"]), "raised": raised, "exc": exc, "booms": len(symbols_mod.BOOMS),
                     "counts": [counters[i].count for i in range(nrc)],
                     "fired": list(fired)})
     diag = {"nonflat": list(ctx["nonflat"]), "sinkdata": ctx["sinkdata"]}
